@@ -240,7 +240,7 @@ def relayout(src, r, comments=True):
         strs = t.endswith('"') and nxt.startswith('"')
         if strs: out += r.choice([" ", "\n  ", "  "])   # parts of one multi-part literal: whitespace only
         elif x < 0.22: out += "\n" + " " * r.randint(0, 4)
-        elif x < 0.27 and comments: out += r.choice([" # c\n", " // c if (\n", "\t#\n"])
+        elif x < 0.27 and comments: out += r.choice([" # c\n", " // c if (\n", "\t#\n", " # see maps/*/x.pory /* y\n", " // */ end of it\n", " # 2 potions below\n", " #1 \"f\"\n"])
         elif x < 0.31: out += "\r\n"
         elif wordy or x < 0.7: out += r.choice([" ", " ", "  ", "\t"])
         elif t in "=!<>&|/" or nxt[:1] in "=&|/" or (t == "-" ) or (nxt[:1].isdigit() and t[-1] == "-"): out += " "
